@@ -146,7 +146,7 @@ def run_tlc(
         for name, text in (extra_files or {}).items():
             (work / name).write_text(text)
         (work / f"{module}.cfg").write_text(cfg)
-        jopts = [f"-Xmx{heap}", "-XX:+UseParallelGC"]
+        jopts = [f"-Xmx{heap}", "-Xss512m", "-XX:+UseParallelGC"]
         if dfs_queue:
             jopts.append("-Dtlc2.tool.queue.IStateQueue=StateDeque")
         cmd = [
